@@ -278,6 +278,13 @@ func (a *arenaSubject) Range(x, y []byte) Seq {
 		a.with([][]byte{x, y}, func(ks [][]byte) { wrapBytes(a.t.Range(ks[0], ks[1]))(yield) })
 	}
 }
+func (a *arenaSubject) Move(from, to []byte) bool {
+	v, ok := a.Search(from)
+	if ok {
+		a.Insert(to, v)
+	}
+	return ok
+}
 func (a *arenaSubject) Size() int { return a.t.Size() }
 func (a *arenaSubject) Tree() any { return a.t }
 
